@@ -680,7 +680,7 @@ def _powhsm_pages(run, PV, PA, pr, g):
              "answer[DATA+1:], go on iff MORE; LEGACY -> append answer[DATA:] (the whole data: a legacy message has no flag byte), stop, and the envelope is the message; "
              "page += 1 either way; buffers start empty.")
     loops = [n for n in A.own_nodes(pr) if isinstance(n, ast.While) and any(isinstance(c, ast.Call) and call_name(c) == "send" for c in ast.walk(n))]
-    run.require(len(loops) == 1, "PowHsmAttestation.run: the page loop (while ...: self.send(op, page)) was not identified")
+    run.require(len(loops) in (1, 2), "PowHsmAttestation.run: the page loop (while ...: self.send(op, page)) was not identified")
     loop = loops[0]
     head, after = c06._while_nodes(g, loop)
     run.require(head is not None, "PowHsmAttestation.run: page loop structure not understood")
@@ -741,6 +741,9 @@ def _powhsm_pages(run, PV, PA, pr, g):
             if isinstance(v_, int) and not isinstance(v_, bool):
                 single[nm_] = v_
     LH = P.module_const(pr.module.name, "LEGACY_HEADER")
+    if len(loops) == 2:
+        _powhsm_pages_split(run, PV, PA, pr, g, loops, fold, DATA, LH)
+        return
 
     def atom(e):
         cp = cmp_parts(e)
@@ -877,6 +880,195 @@ def _powhsm_pages(run, PV, PA, pr, g):
                           key="PowHsmAttestation.run|pages|init|buffer", where=pr.loc(loop), message=f"after the page loop the buffer is not b''.join({tag[1]})")
     run.check("R4p", len({t for t in acc_kinds if t[0] in ("aug", "list")}) == 1, "one way of accumulating pages", key="PowHsmAttestation.run|pages|accumulator", where=pr.loc(loop),
               message=f"pages are accumulated as {sorted(acc_kinds)}")
+
+
+def _powhsm_pages_split(run, PV, PA, pr, g, loops, fold, DATA, LH):
+    """R4p for the gathering written as two loops, one per operation (a page-reading helper inlined twice): the same machine - request
+    (op, n) for n = 0, 1, ..; a legacy message is one page taken whole and is the envelope too; otherwise pages without their flag byte are
+    appended while MORE - decided on the walk of one iteration of each loop followed to where it leads (next iteration, the other loop, the
+    signer-hash request)."""
+    P, A = run.P, run.A
+    from sa.decide import Walker, cmp_parts, completions
+    from sa.canon import ieval, NotClosed
+    info = []
+    for lp in loops:
+        head, after = c06._while_nodes(g, lp)
+        sends = [n for n in ast.walk(lp) if isinstance(n, ast.Assign) and isinstance(n.value, ast.Call) and call_name(n.value) == "send"
+                 and len(n.targets) == 1 and isinstance(n.targets[0], ast.Name)]
+        run.require(head is not None and len(sends) == 1, "PowHsmAttestation.run: page loop structure not understood (two-loop form)")
+        sc = sends[0].value
+        run.require(len(sc.args) == 2, "PowHsmAttestation.run: page request is not send(op, page) (two-loop form)")
+        try:
+            opv = P.const_eval(sc.args[0], pr.module, PA)
+        except Unknown:
+            opv = None
+        run.require(isinstance(opv, EnumMember) and opv.name in ("OP_GET_MESSAGE", "OP_GET_ENVELOPE"),
+                    f"PowHsmAttestation.run: a page loop requests `{norm(sc.args[0])}`, neither the message nor the envelope operation as a constant (idiom not understood)")
+        t_edges = [n for n in g.nodes if n.kind == "T" and n.cond is not None and n.cond.ast is lp.test]
+        run.require(len(t_edges) == 1, "PowHsmAttestation.run: page loop entry edge not found (two-loop form)")
+        info.append({"loop": lp, "head": head, "send": sends[0], "R": sends[0].targets[0].id, "msg": opv.name == "OP_GET_MESSAGE", "t": t_edges[0]})
+    run.check("R4p", sorted(i["msg"] for i in info) == [False, True], "one loop gathers the message and one the envelope", key="PowHsmAttestation.run|pages|loops", where=pr.loc(),
+              message=f"the two page loops request {[('message' if i['msg'] else 'envelope') for i in info]}")
+    if sorted(i["msg"] for i in info) != [False, True]:
+        return
+    ML = next(i for i in info if i["msg"])
+    EL = next(i for i in info if not i["msg"])
+    # the result: which locals are handed out as message / envelope, and the request after the gathering
+    rets = [n for n in A.own_nodes(pr) if isinstance(n, ast.Return)]
+    run.require(len(rets) == 1 and isinstance(rets[0].value, ast.Dict), "PowHsmAttestation.run: result is not one dict display (two-loop form)")
+    rd = {k.value: v for k, v in zip(rets[0].value.keys, rets[0].value.values) if isinstance(k, ast.Constant)}
+    outs = {}
+    for key in ("message", "envelope"):
+        v = rd.get(key)
+        okv = isinstance(v, ast.Call) and isinstance(v.func, ast.Attribute) and v.func.attr == "hex" and not v.args and isinstance(v.func.value, ast.Name)
+        run.require(okv, f"PowHsmAttestation.run: result.{key} is not `<local>.hex()` (two-loop form, idiom not understood)")
+        outs[key] = v.func.value.id
+    M, E = outs["message"], outs["envelope"]
+    hash_nodes = [n for n in g.nodes if n.kind == "stmt" and isinstance(n.ast, ast.Assign) and isinstance(n.ast.value, (ast.Call, ast.Subscript))
+                  and any(isinstance(c, ast.Call) and call_name(c) == "send" and c.args and norm(c.args[0]).endswith("OP_APP_HASH") for c in ast.walk(n.ast.value))]
+    run.require(len(hash_nodes) == 1, "PowHsmAttestation.run: the signer-hash request after the gathering was not identified (two-loop form)")
+    HN = hash_nodes[0]
+    stops = {ML["head"], EL["head"], HN}
+
+    def mk_atom(Rn):
+        def atom(e):
+            cp = cmp_parts(e)
+            if cp is None:
+                return None
+            l, op, r = cp
+            if op not in ("==", "!="):
+                return None
+            lf_, rf_ = fold(l), fold(r)
+            for a_, b_ in ((lf_, rf_), (rf_, lf_)):
+                if isinstance(a_, ast.Subscript) and isinstance(a_.value, ast.Name) and a_.value.id == Rn:
+                    if not isinstance(a_.slice, ast.Slice) and isinstance(a_.slice, ast.Constant) and a_.slice.value == DATA and isinstance(b_, ast.Constant) and b_.value == 1:
+                        return ("MORE", op == "==")
+                    if isinstance(a_.slice, ast.Slice) and isinstance(b_, ast.Constant) and b_.value == LH:
+                        try:
+                            lo = ieval(a_.slice.lower, {}) if a_.slice.lower is not None else 0
+                            hi = ieval(a_.slice.upper, {}) if a_.slice.upper is not None else None
+                        except NotClosed:
+                            return None
+                        if lo == DATA and hi == DATA + len(LH) and a_.slice.step is None:
+                            return ("LEGH", op == "==")
+            return None
+        return atom
+
+    def grown(v, acc, Rn):
+        """v == acc + answer[DATA+k:]  ->  k, else None"""
+        v = fold(v) if v is not None else None
+        if isinstance(v, ast.BinOp) and isinstance(v.op, ast.Add) and isinstance(v.left, ast.Name) and v.left.id == acc and isinstance(v.right, ast.Subscript) \
+                and isinstance(v.right.value, ast.Name) and v.right.value.id == Rn and isinstance(v.right.slice, ast.Slice) and v.right.slice.upper is None and v.right.slice.step is None:
+            try:
+                return (ieval(v.right.slice.lower, {}) if v.right.slice.lower is not None else 0) - DATA
+            except (NotClosed, TypeError):
+                return None
+        return None
+    n_cases = 0
+    for I in (ML, EL):
+        lp, Rn = I["loop"], I["R"]
+        sc = I["send"].value
+        what = "message" if I["msg"] else "envelope"
+        # the page number: bytes([<counter>])
+        pe = sc.args[1]
+        okreq = isinstance(pe, ast.Call) and norm(pe.func) == "bytes" and len(pe.args) == 1 and isinstance(pe.args[0], ast.List) and len(pe.args[0].elts) == 1 \
+            and isinstance(pe.args[0].elts[0], ast.Name)
+        run.check("R4p", okreq, f"the {what} loop requests send(op, bytes([<page counter>]))", key=f"PowHsmAttestation.run|pages|request|{what}", where=pr.loc(I["send"]),
+                  message=f"the {what} page request is `{norm(sc)[:70]}`; expected self.send(op, bytes([<page counter>]))")
+        if not okreq:
+            continue
+        PG = pe.args[0].elts[0].id
+        accs = set()
+        leaves = list(Walker(A, pr, PA, mk_atom(Rn), max_leaves=64).walk(I["t"], stops=stops))
+        # iterations that go on come first: they say which local is the buffer
+        leaves.sort(key=lambda lf_: 0 if (lf_.kind == "stop" and lf_.node is I["head"]) else 1)
+        for lf in leaves:
+            unknown = sorted(k[1:] for k in lf.pc if isinstance(k, str) and k.startswith("?"))
+            run.check("R4p", not unknown, f"the {what} loop decides on the legacy header and the continuation flag only", key=f"PowHsmAttestation.run|pages|extra|{what}|{';'.join(unknown)[:50]}",
+                      where=pr.loc(lp), message=f"the {what} page loop decides on `{'`, `'.join(unknown)[:120]}`")
+            if unknown:
+                continue
+            if lf.kind == "stop" and lf.node is I["head"]:
+                kind = "next"
+            elif lf.kind == "stop" and lf.node is EL["head"] and I["msg"]:
+                kind = "envelope loop"
+            elif lf.kind == "stop" and lf.node is HN:
+                kind = "done"
+            else:
+                kind = f"{lf.kind} at line {lf.node.lineno}"
+            reqs = [st for k, st, v in lf.effects if k == "assign" and st is I["send"]]
+            other_reqs = [norm(v)[:50] for k, st, v in lf.effects if k in ("assign", "expr") and st is not I["send"] and isinstance(v, ast.AST)
+                          and any(isinstance(c, ast.Call) and call_name(c) == "send" for c in ast.walk(v))]
+            for val in completions({k: b for k, b in lf.pc.items() if k in ("LEGH", "MORE")}, ["LEGH", "MORE"] if I["msg"] else ["MORE"]):
+                n_cases += 1
+                leg = I["msg"] and val["LEGH"]
+                desc = f"gathering the {what}, " + (f"legacy header {'present' if val['LEGH'] else 'absent'}, " if I["msg"] else "") + f"more pages {'announced' if val['MORE'] else 'not announced'}"
+                key = f"{what}|{val.get('LEGH')}|{val['MORE']}"
+                run.check("R4p", len(reqs) == 1 and not other_reqs, f"[{desc}] one page request", key=f"PowHsmAttestation.run|pages|requests|{key}", where=pr.loc(lp),
+                          message=f"page loop, case [{desc}]: {len(reqs)} page request(s) and {other_reqs} in one iteration")
+                if not I["msg"] and "LEGH" in lf.pc:
+                    run.fail("R4p", f"PowHsmAttestation.run|pages|legacy-on-envelope|{key}", pr.loc(lp), "the envelope loop looks for the legacy header: only a message can be a legacy message")
+                want = "done" if leg else ("next" if val["MORE"] else ("envelope loop" if I["msg"] else "done"))
+                run.check("R4p", kind == want and "MORE" in lf.pc | ({"MORE": 1} if leg else {}) and (not I["msg"] or "LEGH" in lf.pc), f"[{desc}] -> {want}",
+                          key=f"PowHsmAttestation.run|pages|more|{key}", where=pr.loc(lp),
+                          message=f"page loop, case [{desc}]: the iteration leads to `{kind}`, expected `{want}`")
+                if kind != want:
+                    continue
+                if want == "next":
+                    cand = [nm for nm, v in lf.env.items() if grown(v, nm, Rn) is not None]
+                    off = grown(lf.env[cand[0]], cand[0], Rn) if len(cand) == 1 else None
+                    if len(cand) == 1:
+                        accs.add(cand[0])
+                    run.check("R4p", len(cand) == 1 and off == 1, f"[{desc}] appends answer[DATA+1:]", key=f"PowHsmAttestation.run|pages|append|{key}", where=pr.loc(lp),
+                              message=f"page loop, case [{desc}]: the buffer grows by {[norm(lf.env[c])[:60] for c in cand]} (offset {off} after the data start); expected exactly answer[DATA+1:]")
+                    nxt = lf.env.get(PG)
+                    run.check("R4p", nxt is not None and norm(nxt) in (f"{PG} + 1", f"1 + {PG}"), f"[{desc}] next page is n + 1", key=f"PowHsmAttestation.run|pages|request|{key}",
+                              where=pr.loc(lp), message=f"page loop, case [{desc}]: the page counter becomes `{norm(nxt) if nxt is not None else PG + ' (unchanged)'}`, expected {PG} + 1")
+                else:
+                    OUT = M if I["msg"] else E
+                    got = lf.env.get(OUT, lf.bind.get(OUT))
+                    got = lf.deep(got, stop=tuple(accs) + (Rn,)) if got is not None else None
+                    cand = [a for a in sorted(accs) if grown(got, a, Rn) is not None] if got is not None else []
+                    off = grown(got, cand[0], Rn) if len(cand) == 1 else None
+                    want_off = 0 if leg else 1
+                    run.check("R4p", len(cand) == 1 and off == want_off and (not accs or cand[0] in accs), f"[{desc}] the {what} is the pages so far + answer[DATA+{want_off}:]",
+                              key=f"PowHsmAttestation.run|pages|append|{key}", where=pr.loc(lp),
+                              message=f"page loop, case [{desc}]: the {what} handed out is `{norm(got)[:80] if got is not None else OUT + ' (not set)'}`; expected <pages so far> + answer[DATA+{want_off}:]"
+                                      + (" - a legacy message has no flag byte" if leg else ""))
+                    if leg:
+                        ev = lf.env.get(E, lf.bind.get(E))
+                        ev = lf.deep(ev, stop=tuple(accs) + (Rn,)) if ev is not None else None
+                        run.check("R4p", ev is not None and got is not None and norm(ev) == norm(got), f"[{desc}] the envelope is the message", key="PowHsmAttestation.run|pages|legacy-envelope",
+                                  where=pr.loc(lp), message=f"after a legacy message the envelope is `{norm(ev)[:60] if ev is not None else E + ' (not set)'}`, not the message")
+                    if want == "envelope loop":
+                        # the envelope loop starts from scratch
+                        esc = EL["send"].value
+                        epg = esc.args[1].args[0].elts[0].id if isinstance(esc.args[1], ast.Call) and esc.args[1].args and isinstance(esc.args[1].args[0], ast.List) \
+                            and esc.args[1].args[0].elts and isinstance(esc.args[1].args[0].elts[0], ast.Name) else None
+                        pv = lf.env.get(epg) if epg else None
+                        run.check("R4p", isinstance(pv, ast.Constant) and pv.value == 0 and type(pv.value) is int, "the envelope loop starts at page 0", key="PowHsmAttestation.run|pages|init|envelope-page",
+                                  where=pr.loc(EL["loop"]), message=f"the envelope loop is entered with page counter `{norm(pv) if pv is not None else epg}`, expected 0")
+                        state_e = [nm for nm, v in lf.env.items() if isinstance(v, ast.Constant) and v.value == b""]
+                        I.setdefault("empties", set()).update(state_e)
+        I["accs"] = accs
+        run.check("R4p", len(accs) == 1, f"one buffer accumulates the {what} pages", key=f"PowHsmAttestation.run|pages|accumulator|{what}", where=pr.loc(lp),
+                  message=f"{what} pages are accumulated in {sorted(accs)}")
+    run.floor("R4p", "page-loop cases", n_cases, 6)
+    # entry: the message loop comes first, with an empty buffer and page 0; the envelope buffer starts empty as well
+    for lf in Walker(A, pr, PA, lambda e: None).walk(g.entry, stops=stops):
+        run.check("R4p", lf.kind == "stop" and lf.node is ML["head"], "the gathering starts with the message", key="PowHsmAttestation.run|pages|init|first", where=pr.loc(),
+                  message=f"run() reaches `{lf.kind}` at line {lf.node.lineno} before the message loop")
+        if not (lf.kind == "stop" and lf.node is ML["head"]):
+            continue
+        msc = ML["send"].value
+        mpg = msc.args[1].args[0].elts[0].id
+        for nm, want in [(mpg, 0)] + [(a, b"") for a in sorted(ML.get("accs", ()))]:
+            v = lf.env.get(nm)
+            run.check("R4p", isinstance(v, ast.Constant) and v.value == want and type(v.value) is type(want), f"page loop starts with {nm} = {want!r}", key=f"PowHsmAttestation.run|pages|init|{nm}",
+                      where=pr.loc(ML["loop"]), message=f"the message loop is entered with {nm} = `{norm(v) if v is not None else 'unset'}`; expected {want!r}")
+    for a in sorted(EL.get("accs", ())):
+        run.check("R4p", a in ML.get("empties", set()), "the envelope buffer starts empty", key="PowHsmAttestation.run|pages|init|buffer", where=pr.loc(EL["loop"]),
+                  message=f"the envelope buffer `{a}` is not b'' when the envelope loop is entered")
 
 
 def run(run):
@@ -1220,5 +1412,8 @@ def run(run):
                 okb = isinstance(v, ast.Call) and isinstance(v.func, ast.Attribute) and v.func.attr == "hex" and not v.args \
                     and isinstance(v.func.value, ast.Subscript) and isinstance(v.func.value.value, ast.Name) \
                     and isinstance(v.func.value.slice, ast.Constant) and v.func.value.slice.value == k
+                if not okb and isinstance(v, ast.Call) and isinstance(v.func, ast.Attribute) and v.func.attr == "hex" and not v.args and isinstance(v.func.value, ast.Name):
+                    # one loop per operation, each handing its buffer out under a local of its own: which buffer that local holds is decided by R4p (two-loop form)
+                    okb = len([n for n in A.own_nodes(pr) if isinstance(n, ast.While) and any(isinstance(c, ast.Call) and call_name(c) == "send" for c in ast.walk(n))]) == 2
                 run.check("R4", okb, f"result `{k}` is the hex of the buffer gathered under that name", key=f"PowHsmAttestation.run|result|{k}", where=pr.loc(r),
                           message=f"PowHsmAttestation.run: `{k}` is `{norm(v) if v is not None else None}`, not the buffer gathered as '{k}'")
